@@ -204,6 +204,9 @@ def main():
     scenarios = [s for s in mod.SCENARIOS if a.tier in s.get("tiers", ("quick", "thorough"))]
     if a.only:
         scenarios = [s for s in scenarios if a.only in s["name"] or a.only in s["entry"]]
+        if not scenarios:
+            print("no scenario of %s (tier %s) matches --only %r" % (prop, a.tier, a.only))
+            sys.exit(2)
     if a.replay:
         doc = json.load(open(a.replay))
         scenarios = [s for s in mod.SCENARIOS if s["entry"] == doc["entry"]]
